@@ -30,6 +30,8 @@ def conc_script(rng, sid, K, per, policy, wrap=False, flush_ms=0, feeder=True, n
         for _ in range(per):
             fn, ag = rng.choice(SENDS); na = rng.choice(nodes)
             line, ev = g.ll_line(fn, na, ag(rng)); ev = dict(ev, e="sub", t=k); s.add(line, ev)
+            # senders flush, too: two flushes (and their write callbacks) may overlap in any way the locks allow
+            if rng.random() < 0.3: s.add("flush", {"e": "wcmd", "in": True})
     if feeder:
         s.add("thread %d" % (K + 1))
         for _ in range(per):
